@@ -32,7 +32,7 @@ C06(ev) == /\ ev.panic = "" /\ ev.encOK /\ ev.valid /\ ev.j.t # "invalid" /\ NoD
            /\ ev.decOK /\ VEq(ev.v, ev.v2)
 \* C07: the bytes validate against the schema and say exactly what the value says
 C07(ev) == /\ ev.encOK /\ ev.j.t # "invalid"
-           /\ Valid(S(ev.type), ev.j) /\ Match(S(ev.type), ev.v, ev.j)
+           /\ Valid(S(ev.type), ev.j) /\ Encodes(S(ev.type), ev.v, ev.j)
 \* C08: valid documents decode and re-encode equivalently; single faults are rejected naming the property
 C08(ev) == /\ ev.panic = ""
            /\ IF ev.mut = "none" THEN ev.decOK /\ ev.encOK /\ ev.re.t # "invalid" /\ JEquiv(S(ev.type), ev.doc, ev.re)
